@@ -164,11 +164,13 @@ package ss2022
 //@   ensures isnil(err) ==> b[0] == 0 && tsValid(int64(be64(b[1:])), now)
 //@   ensures isnil(err) ==> conn.AddrWF(targetAddr) && targetAddr.IsValid()
 //@   ensures isnil(err) ==> 0 <= payloadStart && 0 <= payloadLen && payloadStart + payloadLen == len(b)
+//@   ensures isnil(err) ==> payloadStart >= 11 + socks5.LengthOfAddrFromConnAddr(targetAddr)
 
 //@ func ParseUDPServerMessageHeader
 //@   modifies nothing
 //@   ensures isnil(err) ==> b[0] == 1 && tsValid(int64(be64(b[1:])), now) && be64(b[9:]) == csid
 //@   ensures isnil(err) ==> 0 <= payloadStart && 0 <= payloadLen && payloadStart + payloadLen == len(b)
+//@   ensures isnil(err) ==> payloadStart >= 19 + socks5.LengthOfAddrFromAddrPort(payloadSourceAddrPort)
 
 // ---------------------------------------------------------------------------
 // UDP unpackers (properties C04, C05, C06): bounds, and the replay filter is touched only after the packet
@@ -186,7 +188,7 @@ package ss2022
 //@   ensures !isnil(err) && !isnil(old(p.filter)) ==> p.filter.last == old(p.filter.last) && unchanged(p.filter.ring[*])
 //@   ensures isnil(err) ==> !isnil(p.filter) && swfWF(p.filter) && swfBit(p.filter, old(be64(b[packetStart + 8:])))
 //@   ensures isnil(err) && !isnil(old(p.filter)) ==> p.filter == old(p.filter) && (old(be64(b[packetStart + 8:])) > old(p.filter.last) || (old(p.filter.last) - old(be64(b[packetStart + 8:])) < p.filter.size && !old(swfBit(p.filter, be64(b[packetStart + 8:])))))
-//@   ensures isnil(err) ==> payloadStart >= packetStart + p.nonAEADHeaderLen && payloadLen >= 0 && payloadStart + payloadLen + 16 == packetStart + packetLen
+//@   ensures isnil(err) ==> payloadStart >= packetStart + p.nonAEADHeaderLen + 11 + socks5.LengthOfAddrFromConnAddr(targetAddr) && payloadLen >= 0 && payloadStart <= packetStart + packetLen && payloadStart + payloadLen + 16 == packetStart + packetLen
 //@   ensures isnil(err) ==> conn.AddrWF(targetAddr) && targetAddr.IsValid()
 
 // Key derivation (BLAKE3 + AES) is outside the verifier's reach: trusted, results unconstrained.
@@ -213,7 +215,7 @@ package ss2022
 //@   ensures isnil(err) ==> (!isnil(p.currentServerSessionAEAD) ==> !isnil(p.currentServerSessionFilter)) && (!isnil(p.oldServerSessionAEAD) ==> !isnil(p.oldServerSessionFilter))
 //@   ensures isnil(err) && p.currentServerSessionFilter != old(p.currentServerSessionFilter) ==> p.oldServerSessionID == old(p.currentServerSessionID) && p.oldServerSessionFilter == old(p.currentServerSessionFilter) && p.oldServerSessionAEAD == old(p.currentServerSessionAEAD) && p.currentServerSessionID == be64(b[packetStart:]) && fresh(p.currentServerSessionFilter)
 //@   ensures isnil(err) && p.currentServerSessionFilter == old(p.currentServerSessionFilter) ==> p.currentServerSessionID == old(p.currentServerSessionID) && p.oldServerSessionID == old(p.oldServerSessionID) && p.oldServerSessionFilter == old(p.oldServerSessionFilter)
-//@   ensures isnil(err) ==> payloadStart >= packetStart + 16 && payloadLen >= 0 && payloadStart + payloadLen + 16 == packetStart + packetLen
+//@   ensures isnil(err) ==> payloadStart >= packetStart + 16 + 19 + socks5.LengthOfAddrFromAddrPort(payloadSourceAddrPort) && payloadLen >= 0 && payloadStart <= packetStart + packetLen && payloadStart + payloadLen + 16 == packetStart + packetLen
 
 // ---------------------------------------------------------------------------
 // UDP packers and header writers (property C05)
@@ -265,3 +267,8 @@ package ss2022
 //@   ensures !isnil(err) ==> err == zerocopy.ErrPayloadTooBig && p.spid == old(p.spid)
 //@   ensures isnil(err) ==> 0 <= packetStart && packetStart <= payloadStart - 35 - socks5.LengthOfAddrFromAddrPort(sourceAddrPort) && packetStart + packetLen == payloadStart + payloadLen + 16 && packetLen <= maxPacketLen
 //@   ensures isnil(err) ==> p.spid == old(p.spid) + 1
+
+//@ func (*ShadowPacketServerPacker).ServerPackerInfo
+//@   ensures result.Headroom == ShadowPacketServerMessageHeadroom
+//@ func (*ShadowPacketClientUnpacker).ClientUnpackerInfo
+//@   ensures result.Headroom == ShadowPacketServerMessageHeadroom
